@@ -16,6 +16,7 @@ type baseInfo struct {
 	height        int
 	contents      map[uint64]uint64
 	modified      map[uint64]bool
+	byPointer     bool // the tree is a clone that has not been persisted itself: it holds the version's top node by pointer
 	ranges        map[string][2]*uint64 // name -> open bounds given by the parent (nil = unbounded)
 	reach         map[string]bool
 	heightChanged bool // the height differed from the base version's at some point since
@@ -293,6 +294,14 @@ func (s *Session) checkDiffCost(oslot, nslot int, loaded []string) string {
 		return ""
 	}
 	if bo.link == bn.link && bo.height == bn.height {
+		if bo.byPointer || bn.byPointer {
+			// a clone that was never persisted itself holds the top node as an object: the diff
+			// cannot see that it is the other side's name and may read that one node
+			if len(loaded) > 1 {
+				return fmt.Sprintf("diff of a version with an unpersisted clone of itself read %d nodes", len(loaded))
+			}
+			return ""
+		}
 		if len(loaded) > 0 {
 			return fmt.Sprintf("diff of a version with itself read %d nodes", len(loaded))
 		}
